@@ -15,7 +15,7 @@ PROPERTY = 'C08'
 VALIDATE_MODELS = []
 VALIDATION_CASES = {'quick': 60, 'thorough': 200}
 TIME_BUDGET = {'quick': 900, 'thorough': 3300}
-OPTS = {'quick': {'hash_order': 'insertion', 'step_budget': 400000}, 'thorough': {'hash_order': 'insertion', 'step_budget': 1000000}}
+OPTS = {'quick': {'hash_order': 'all', 'step_budget': 400000}, 'thorough': {'hash_order': 'all', 'step_budget': 1000000}}
 VALIDATION_ALLOW_FORKS = True
 BOUNDS = {
     'quick': '1-2 files with 0-3 items (at most 4 items), the three strategies; skip, fast_forward, limit (or None), epoch: symbolic usize '
